@@ -1,6 +1,6 @@
 """C33 - declared schemas are enforced."""
 import re
-from ..core import CheckError, op_local, proj
+from ..core import CheckError, op_local, proj, syn_walk, last_seg
 from . import common, dur
 
 SE = "storage_engine::StorageEngine"
@@ -17,7 +17,8 @@ def run(F, ctx):
         "and its failure edge cannot reach a persist call (so every caller - Insert, Update, any future one - is covered, and nothing is applied before the whole "
         "batch validated); (b) the validator chain rejects the batch iff some tuple produced a violation: the batch's Ok is built only on the empty-violations side, "
         "every tuple's violations are collected, a tuple's Ok is built only on its empty-violations side, and both the arity comparison and the per-column type test feed "
-        "the violation list. Not decided: the type-compatibility table itself (which Value matches which SchemaType)."
+        "the violation list; (c) the type-compatibility table SchemaType::matches, evaluated arm by arm (first match wins) over every (declared type, value kind) pair, "
+        "accepts exactly the pairs of the reference table and compares the length with the declared dimension for dimensioned vectors."
     )
     # ---- a
     ctx.rule("R-C33-a", "validation dominates persist in insert_tuples_into; failing edge cannot reach persist", floor=2)
@@ -52,6 +53,7 @@ def run(F, ctx):
         if not ok:
             ctx.violation("%s:R-C33-a:second-insert-path" % n, "%s applies an insert in memory without going through insert_tuples_into (and its schema validation)" % n, c.where())
     ctx.end_rule()
+    table(F, ctx)
 
     # ---- b
     ctx.rule("R-C33-b", "validator chain: batch/tuple Ok only on the empty-violations side; arity and type tests feed the violation list", floor=4)
@@ -130,4 +132,146 @@ def run(F, ctx):
     ctx.site("validate_tuple: arity comparison and per-column type test feed the violation list", t.where(), ok=ok, type_tests=len(mt), pushes=len(push))
     if not ok:
         ctx.violation(VE + "::validate_tuple:R-C33-b:tests", "validate_tuple no longer records a violation for an arity mismatch and for a column whose value does not match the declared type", t.where())
+    ctx.end_rule()
+
+
+# ---- c: the type-compatibility table --------------------------------------------------------------------------
+# Reference: which value kinds conform to which declared type. Diagonal from the documentation of the two enums
+# (src/schema/mod.rs: "Int maps to Int32 or Int64", "Float maps to Float64", symbols are strings at the data level,
+# "dim: Some(n) enforces exact dimension; dim: None accepts any dimension", Any = no constraint); the three widenings
+# (integer into float, Int64 into timestamp) are the ones the code documents in place and the suite exercises.
+# Named aliases are resolved by the catalog, not by this table. Everything else (incl. Null) does not conform.
+_ACCEPT = {
+    "Int": {"Int32", "Int64"},
+    "Float": {"Float64", "Int32", "Int64"},
+    "Symbol": {"String"},
+    "String": {"String"},
+    "Bool": {"Bool"},
+    "Timestamp": {"Timestamp", "Int64"},
+    "Vector/None": {"Vector", "VectorInt8"},
+}
+_LENDIM = {"Vector/Some": {"Vector", "VectorInt8"}}
+_ALL = ("Any", "Named")
+
+
+def _pm(p, case, binds):
+    """does pattern p match the abstract case? case: ('T', variant, dim) | ('V', variant) | ('D', 'Some'|'None') | ('tuple', [cases])"""
+    k = p.get("p")
+    if k == "wild":
+        return True
+    if k == "ident":
+        if p.get("sub"):
+            return _pm(p["sub"], case, binds)
+        if case[0] == "D" and p["name"] == "None":
+            return case[1] == "None"
+        binds[p["name"]] = case
+        return True
+    if k == "ref":
+        return _pm(p["pat"], case, binds)
+    if k == "or":
+        return any(_pm(c, case, binds) for c in p["cases"])
+    if k == "tuple":
+        if case[0] != "tuple" or len(p["elems"]) != len(case[1]):
+            raise CheckError("SchemaType::matches: tuple pattern of unexpected shape")
+        return all(_pm(e, c, binds) for e, c in zip(p["elems"], case[1]))
+    if k in ("path", "ts", "struct"):
+        name = last_seg(p["path"])
+        if case[0] == "D":
+            if name not in ("Some", "None"):
+                raise CheckError("SchemaType::matches: unexpected pattern on dim: %s" % p["path"])
+            if name != case[1]:
+                return False
+            for e in p.get("elems", []):
+                _pm(e, ("N",), binds)
+            return True
+        if case[0] not in ("T", "V") or name != case[1]:
+            return False
+        if k == "ts":
+            for e in p["elems"]:
+                if e.get("p") not in ("wild", "ident"):
+                    raise CheckError("SchemaType::matches: payload pattern inspects the value: %r" % e)
+                _pm(e, ("payload", case), binds)
+            return True
+        if k == "struct":
+            for fname, fp in p["fields"]:
+                if fname != "dim" or case[0] != "T":
+                    raise CheckError("SchemaType::matches: unexpected struct field %s" % fname)
+                if not _pm(fp, ("D", case[2]), binds):
+                    return False
+            return True
+        return True
+    raise CheckError("SchemaType::matches: unrecognised pattern kind %r" % k)
+
+
+def _verdict(body, binds):
+    if body.get("e") == "block" and len(body.get("stmts", [])) == 1:
+        body = body["stmts"][0]
+    if body.get("e") == "lit" and body.get("t") == "bool":
+        return "accept" if body["v"] == "true" else "reject"
+    if body.get("e") == "bin" and body.get("op") == "==":
+        def side(x):
+            while x.get("e") in ("un", "paren", "ref") and "x" in x:
+                x = x["x"]
+            if x.get("e") == "mcall" and x.get("m") == "len" and x["recv"].get("e") == "path":
+                b = binds.get(x["recv"]["p"])
+                if b and b[0] == "payload":
+                    return "len"
+            if x.get("e") == "path":
+                b = binds.get(x["p"])
+                if b and b[0] == "N":
+                    return "dim"
+            return None
+        if {side(body["l"]), side(body["r"])} == {"len", "dim"}:
+            return "len==dim"
+    return "other"
+
+
+def table(F, ctx):
+    ctx.rule("R-C33-c", "type-compatibility table: first-match evaluation of SchemaType::matches over every (declared type, value kind) pair equals the reference table", floor=90)
+    f = F.syn_fn("matches", file="src/schema/mod.rs", impl_self="SchemaType")
+    ms = [n for n in syn_walk(f["body"]) if n.get("e") == "match"]
+    if len(ms) != 1 or ms[0]["on"].get("e") != "tuple" or [x.get("p") for x in ms[0]["on"]["xs"]] != ["self", "value"]:
+        raise CheckError("SchemaType::matches is no longer one match over (self, value): the table rule cannot read it")
+    arms = ms[0]["arms"]
+    tvars = F.variants("schema::SchemaType")
+    vvars = F.variants("value::Value")
+    if not tvars or not vvars:
+        raise CheckError("variants of SchemaType / Value not found")
+    tcases = []
+    for t in tvars:
+        if t == "Vector":
+            tcases += [("T", t, "Some"), ("T", t, "None")]
+        else:
+            tcases.append(("T", t, None))
+    where = "src/schema/mod.rs:%d" % ms[0].get("ln", 0)
+    for tc in tcases:
+        tkey = tc[1] if tc[2] is None else "%s/%s" % (tc[1], tc[2])
+        if tkey not in _ACCEPT and tkey not in _LENDIM and tkey not in _ALL:
+            raise CheckError("SchemaType variant %s has no row in the reference table (confirm its conformance rule by reading and add it)" % tkey)
+        for v in vvars:
+            got = None
+            for a in arms:
+                binds = {}
+                if _pm(a["pat"], ("tuple", [tc, ("V", v)]), binds):
+                    if a.get("guard") is not None:
+                        raise CheckError("SchemaType::matches: guarded arm at line %s: not evaluated by the table rule" % a.get("ln"))
+                    got = _verdict(a["body"], binds)
+                    break
+            if got is None:
+                raise CheckError("no arm matches (%s, %s)" % (tkey, v))
+            if tkey in _ALL:
+                exp = "accept"
+            elif v in _LENDIM.get(tkey, ()):
+                exp = "len==dim"
+            elif v in _ACCEPT.get(tkey, ()):
+                exp = "accept"
+            else:
+                exp = "reject"
+            ok = got == exp
+            ctx.site("(%s, %s) -> %s" % (tkey, v, got), where, ok=ok)
+            if not ok:
+                ctx.violation("schema::SchemaType::matches:R-C33-c:%s:%s" % (tkey, v),
+                              "a column declared %s %s a %s value (reference: %s): %s" % (
+                                  tkey, {"accept": "accepts", "reject": "rejects", "len==dim": "compares length and dimension of", "other": "decides by another test on"}[got], v, exp,
+                                  "a non-conforming tuple can be stored" if exp != "accept" and got != "reject" else "a conforming insert is refused"), where)
     ctx.end_rule()
